@@ -56,6 +56,7 @@ SPEC = streamcheck.StreamSpec(
     cfg=progs.GenConfig(n_cmds=(4, 30), p_list=0.10, p_rel=0.55),
     n_quick=900, n_thorough=30000,
     nontrivial=nontrivial,
+    pysem=dict(groups=['timing']),
     evalcheck=True,
     extra_programs=forced,
     rule='random build programs plus a forced stream in which a long operation has a shorter JOINED_START/JOINED_END/'
